@@ -21,6 +21,7 @@ import sys
 
 from .. import common as C
 from .. import enc_expr as E
+from .. import forms as F
 from .. import gen_graph as G
 
 _TOOL = 4
@@ -158,34 +159,121 @@ def tape_sexp(tape):
 # ------------------------------------------------------------------------------------------ running the real code
 
 
-def run_identify(g, X, Y, *, via="identify", conditions=None, pref=None):
+VARSET_FORMS = F.CONTAINERS + (F.SINGLE, F.SINGLE)      # `Variable | set[Variable]`, normalised by _ensure_set
+
+
+def id_slots(X, Y, Z=None, via="identify"):
+    """legal argument forms of one ID / IDC call (read off identify/api.py and identify/utils.py).
+    Z is None for ID.  `entry` is how the Identification is made (or how identify_outcomes is called);
+    `from_expression` needs a query that can be written as an expression (pairwise disjoint sets, outcomes non-empty,
+    conditions non-empty when given)."""
+    Xs, Ys, Zs = set(X), set(Y), set(Z or [])
+    sl = {"ctor": F.CTORS, "X": VARSET_FORMS, "Y": VARSET_FORMS}
+    if Z is not None:
+        sl["Z"] = VARSET_FORMS
+    writable = bool(Ys) and not (Xs & Ys) and not (Xs & Zs) and not (Ys & Zs) and (Z is None or bool(Zs))
+    if via == "identify_outcomes":
+        sl["entry"] = ("positional", "keyword")
+        if Z is None:
+            # no conditions: the parameter omitted / None select ID; an EMPTY collection selects IDC with nothing to condition on
+            sl["no_conditions"] = ("omitted", "none", "empty_set", "empty_list")
+    else:
+        sl["entry"] = ("direct", "direct_positional", "from_parts") + (("from_expression", "from_expression_at") if writable else ())
+        if Z is None:
+            sl["no_conditions"] = ("omitted", "none", "empty_set")
+    return sl
+
+
+def _make_identification(graph, Xl, Yl, Zl, fm):
+    """the Identification through the constructor named by fm["entry"]; returns (identification, caller-owned arguments)"""
+    from y0.algorithm.identify import Identification, Query
+    from y0.dsl import Distribution, P
+
+    entry = fm["entry"]
+    if entry in ("from_expression", "from_expression_at"):
+        dist = Distribution(children=tuple(Yl), parents=tuple(Zl or ()))
+        if not Xl:
+            expr = P(dist)
+        elif entry == "from_expression":
+            expr = P[F.container(Xl, "tuple")](dist)
+        else:
+            expr = P(dist.intervene(list(Xl)))
+        return Identification.from_expression(query=expr, graph=graph), {}
+    args = {"X": F.varset(Xl, fm["X"]), "Y": F.varset(Yl, fm["Y"])}
+    if Zl is not None:
+        args["Z"] = F.varset(Zl, fm["Z"])
+    kw = {}
+    if Zl is not None:
+        kw["conditions"] = args["Z"]
+    elif fm.get("no_conditions") == "none":
+        kw["conditions"] = None
+    elif fm.get("no_conditions") == "empty_set":
+        kw["conditions"] = set()
+    if entry == "from_parts":
+        return Identification.from_parts(outcomes=args["Y"], treatments=args["X"], graph=graph, **kw), args
+    if entry == "direct_positional":
+        query = Query(args["Y"], args["X"], *([kw["conditions"]] if "conditions" in kw else []))
+        return Identification(query, graph), args
+    return Identification(query=Query(outcomes=args["Y"], treatments=args["X"], **kw), graph=graph), args
+
+
+def run_identify(g, X, Y, *, via="identify", conditions=None, pref=None, forms=None):
     """run the real ID (or IDC when `conditions` is not None) on the integer-space query.
+    `forms` (see id_slots; None = the historical single form: from_edges graph, Python sets, Query + Identification)
+    selects how every argument is handed over.
     Returns dict(out=canonical outcome, expr=y0 expression or None, exc=class name or None, lines=[...],
     tape=[...], exchanged=[...], mutated=None|str)."""
     install()
-    from y0.algorithm.identify import Identification, Query, Unidentifiable, identify, identify_outcomes, idc
+    from y0.algorithm.identify import Unidentifiable, identify, identify_outcomes, idc
 
-    graph = G.to_nx_mixed(g)
-    Xs = {G.V(i) for i in X}
-    Ys = {G.V(i) for i in Y}
-    Zs = None if conditions is None else {G.V(i) for i in conditions}
-    g_before = snapshot_graph(graph)
-    sets_before = (set(Xs), set(Ys), None if Zs is None else set(Zs))
-    _state["lines"], _state["topo"], _state["rule2"], _state["pp"] = [], [], [], []
+    fm = dict(forms or {})
+    fm.setdefault("ctor", "from_edges")
+    fm.setdefault("X", "set")
+    fm.setdefault("Y", "set")
+    fm.setdefault("Z", "set")
+    fm.setdefault("entry", "positional" if via == "identify_outcomes" else "direct")
+    fm.setdefault("no_conditions", "omitted")
     res = {"expr": None, "exc": None, "exc_msg": None}
+    Xl = [G.V(i) for i in X]
+    Yl = [G.V(i) for i in Y]
+    Zl = None if conditions is None else [G.V(i) for i in conditions]
+    try:
+        graph = F.build_graph(g, fm["ctor"], seed=len(g["di"]) * 17 + len(g["bi"]) * 5 + len(X))
+        fault = F.constructor_fault(g, graph, fm["ctor"])
+    except Exception as e:  # noqa: BLE001 - every graph dict is a legal input of every constructor
+        graph, fault = None, f"constructor {fm['ctor']} raised {type(e).__name__}: {str(e)[:100]}"
+    if fault:
+        res.update(out=["err", "other"], exc="ConstructorFault", exc_msg=fault, lines=[], tape=[], rule2=[], mutated=fault, pp=[])
+        return res
+    g_before = snapshot_graph(graph)
+    _state["lines"], _state["topo"], _state["rule2"], _state["pp"] = [], [], [], []
     ident = None
     q_before = None
+    args, args_before = {}, {}
     try:
         if via == "identify_outcomes":
-            r = identify_outcomes(graph, Xs, Ys, conditions=Zs) if Zs is not None else identify_outcomes(graph, Xs, Ys)
+            args = {"X": F.varset(Xl, fm["X"]), "Y": F.varset(Yl, fm["Y"])}
+            kw = {}
+            if Zl is not None:
+                args["Z"] = F.varset(Zl, fm["Z"])
+                kw["conditions"] = args["Z"]
+            elif fm["no_conditions"] != "omitted":
+                kw["conditions"] = {"none": None, "empty_set": set(), "empty_list": []}[fm["no_conditions"]]
+            args_before = {k: F.snapshot(v) for k, v in args.items()}
+            if fm["entry"] == "keyword":
+                r = identify_outcomes(graph=graph, treatments=args["X"], outcomes=args["Y"], **kw)
+            elif "conditions" in kw and len(g["di"]) % 2:
+                r = identify_outcomes(graph, args["X"], args["Y"], kw["conditions"])
+            else:
+                r = identify_outcomes(graph, args["X"], args["Y"], **kw)
             res["expr"] = r
             if r is None:
                 res["exc"] = "Unidentifiable"
         else:
-            query = Query(outcomes=Ys, treatments=Xs, conditions=Zs)
-            ident = Identification(query=query, graph=graph)
+            ident, args = _make_identification(graph, Xl, Yl, Zl, fm)
+            args_before = {k: F.snapshot(v) for k, v in args.items()}
             q_before = (snapshot_query(ident.query), snapshot_graph(ident.graph), repr(ident.estimand))
-            res["expr"] = idc(ident) if Zs is not None else identify(ident)
+            res["expr"] = idc(ident) if Zl is not None else identify(ident)
     except Unidentifiable:
         res["exc"] = "Unidentifiable"
     except RecursionError as e:  # non-termination shows up as this
@@ -200,8 +288,8 @@ def run_identify(g, X, Y, *, via="identify", conditions=None, pref=None):
     mutated = None
     if snapshot_graph(graph) != g_before:
         mutated = "the caller's graph object was modified"
-    elif (Xs, Ys, Zs) != sets_before:
-        mutated = "the caller's treatment/outcome/condition sets were modified"
+    elif any(args_before.get(k) is not None and F.snapshot(v) != args_before[k] for k, v in args.items()):
+        mutated = "the caller's treatment/outcome/condition collections were modified"
     elif ident is not None and q_before != (snapshot_query(ident.query), snapshot_graph(ident.graph), repr(ident.estimand)):
         mutated = "the caller's Identification/Query object was modified"
     if res["exc"] is None:
@@ -212,6 +300,18 @@ def run_identify(g, X, Y, *, via="identify", conditions=None, pref=None):
         out = ["err", "other"]
     res.update(out=out, lines=lines, tape=tape, rule2=r2, mutated=mutated, pp=pp)
     return res
+
+
+def id_form_tags(case, fm):
+    """tags: the forms actually used (`single` only counts when the set has one element)"""
+    t = dict(fm)
+    for k in ("X", "Y", "Z"):
+        if k in t and case.get(k) is not None:
+            t[k] = F.effective(case[k], t[k])
+    if str(t.get("entry", "")).startswith("from_expression"):
+        for k in ("X", "Y", "Z"):
+            t.pop(k, None)
+    return F.tags(t)
 
 
 def model_out(rep):
